@@ -101,10 +101,14 @@ MUTANTS = [
     ("C14", "fire", A, "                precision_correction = W * (V-U)*(1-(V+U)/2)", "                precision_correction = W * (V-U+(V+U)/2)", "old small-argument arm"),
     ("C14", "fire", A, "        result[ai] = [activity*exp(-lam*Ti) for Ti in rest_times]", "        result[ai] = [activity*exp(-parent_lam*Ti) if ai.reaction == 'b' else activity*exp(-lam*Ti) for Ti in rest_times]", "rest decay with the parent's half-life"),
     # ---- C15
-    ("C15", "fire", A, "        df = lambda t: sum(-La*Ia*exp(-La*(t-To)) for Ia, La in data)", "        df = lambda t: sum(La*Ia*exp(-La*(t-To)) for Ia, La in data)", "derivative loses its sign"),
-    ("C15", "silent", A, "        df = lambda t: sum(-La*Ia*exp(-La*(t-To)) for Ia, La in data)", "        df = lambda t: -sum(La*Ia*exp(-La*(t-To)) for Ia, La in data)", "minus factored out"),
+    ("C15", "fire", A, "        df = lambda t: sum(-La*Ia*exp(-La*t) for Ia, La in data)", "        df = lambda t: sum(La*Ia*exp(-La*t) for Ia, La in data)", "derivative loses its sign"),
+    ("C15", "silent", A, "        df = lambda t: sum(-La*Ia*exp(-La*t) for Ia, La in data)", "        df = lambda t: -sum(La*Ia*exp(-La*t) for Ia, La in data)", "minus factored out"),
     ("C15", "fire", A, "        if percent_error > 0.1:", "        if percent_error > 10:", "acceptance test loosened"),
-    ("C15", "fire", A, "        if f(0) <= 0:\n            return 0", "        if f(To) <= 0:\n            return 0", "early exit at the reference time"),
+    ("C15", "fire", A, "        if f(0) <= 0:\n            return 0", "        if f(1) <= 0:\n            return 0", "early exit one hour after removal"),
+    ("C15", "fire", A, "            self._removal_activity[el] = self._removal_activity.get(el, 0) + activity_el[0]", "            self._removal_activity[el] = self._removal_activity.get(el, 0) + activity_el[1]", "removal activity taken from the first requested rest time"),
+    ("C15", "fire", A, "        self.activity = {}\n        self._removal_activity = {}\n        self.environment = environment", "        self.activity = {}\n        self.environment = environment", "removal activities accumulate over repeated activations"),
+    ("C15", "fire", A, '        data = [(Ia, LN2/a.Thalf_hrs) for a, Ia in self._removal_activity.items()]\n        # Build functions for total activity at time T - target and its derivative\n        # This will be zero when activity is at target\n        f = lambda t: sum(Ia*exp(-La*t) for Ia, La in data) - target\n        df = lambda t: sum(-La*Ia*exp(-La*t) for Ia, La in data)\n', '        min_rest, To = min(enumerate(self.rest_times), key=lambda x: x[1])\n        data = [(Ia[min_rest], LN2/a.Thalf_hrs) for a, Ia in self.activity.items()]\n        f = lambda t: sum(Ia*exp(-La*(t-To)) for Ia, La in data) - target\n        df = lambda t: sum(-La*Ia*exp(-La*(t-To)) for Ia, La in data)\n', "activity at removal extrapolated back from the smallest rest time (overflow; reverse of the fix)"),
+    ("C15", "silent", A, "        rest_times = [0] + list(rest_times)", "        rest_times = (0,) + tuple(rest_times)", "tuple instead of list"),
     # ---- C16
     ("C16", "fire", N, "        (H2O_sld[0] - Hsld[0]) / (Dsld[0] - Hsld[0] + H2O_sld[0] - D2O_sld[0]))", "        (H2O_sld[0] - Dsld[0]) / (Dsld[0] - Hsld[0] + H2O_sld[0] - D2O_sld[0]))", "numerator"),
     ("C16", "silent", N, "        (H2O_sld[0] - Hsld[0]) / (Dsld[0] - Hsld[0] + H2O_sld[0] - D2O_sld[0]))", "        (Hsld[0] - H2O_sld[0]) / (Hsld[0] - Dsld[0] + D2O_sld[0] - H2O_sld[0]))", "both signs flipped"),
